@@ -192,7 +192,8 @@ def main(argv):
     seed = int(os.environ.get("VERIF_SEED", "0"))
     t0 = time.time()
     mod = importlib.import_module("vf.monitors." + prop.lower())
-    ensure_deps(getattr(mod, "EXTRA_DEPS", ()))
+    extra = getattr(mod, "EXTRA_DEPS", ())
+    ensure_deps(extra.get(tier, ()) if isinstance(extra, dict) else extra)
 
     # oracle self test (a broken oracle is a broken check, never a VIOLATION)
     from vf import ref
